@@ -119,7 +119,9 @@ def run(ctx):
         for st, (k, v) in explore(run_s, max_paths=50):
             I.st = st
             if k == "abort":
-                raise AnalysisError(f"scenario {name}: {v}")
+                # this scenario cannot be followed; the others are still decided (exit 2 unless one of them finds a violation)
+                ctx.analysis_errors.append(f"scenario {name}: {v}")
+                return
             if k == "raise":
                 ctx.ob(rule, f"{sci.qualname} | {name}", False, f"raises {v.exc} at {v.msg}", sci.loc)
                 continue
@@ -229,6 +231,37 @@ def run(ctx):
         return not wrong and not leaked and snapshot_obj(b) == before_b, \
             f"{len(fields)} built-in fields patched; not updated: {wrong}; stored as dynamic attributes instead: {leaked}", s
     scenario("patch-every-builtin-field", s_patch_all_fields, "patch/exact")
+
+    def s_patch_unseen_no_autocreate(I):
+        # a patch handed to a look-up that does not auto-create must not create the record it would apply to
+        s = fresh(I)
+        x = AInt([I.atom_form(("x", i)) for i in range(24)])
+        r = I.call(mi, [s], {"address": A, "patch": {"dmr_id": x, "custom_attr": 7}})
+        n1 = I.call(ln, [s], {})
+        r2 = I.call(mi, [s], {"address": A, "auto_create": False, "patch": {"callsign": "OK1XXX"}})
+        n2 = I.call(ln, [s], {})
+        return r is None and r2 is None and n1 == 0 and n2 == 0, \
+            f"lookup(unseen address, patch, no auto-create) -> {'None' if r is None and r2 is None else 'a record'}, len {n1}, {n2}", s
+    scenario("patch-unseen-without-autocreate", s_patch_unseen_no_autocreate, "create/guarded")
+
+    def s_patch_falsy(I):
+        # False, 0 and "" are values like any other: naming them in a patch sets them (built-in fields and dynamic attributes)
+        s = fresh(I)
+        a = I.call(mi, [s], {"address": A, "auto_create": True})
+        I.call(save, [s, a, {"snmp_enabled": True, "nat_enabled": True, "dmr_id": 2305, "callsign": "OK1XXX", "custom_flag": True, "custom_count": 5, "custom_text": "x"}], {})
+        falsy = {"snmp_enabled": False, "nat_enabled": False, "dmr_id": 0, "callsign": "", "custom_flag": False, "custom_count": 0, "custom_text": ""}
+        for via in ("save", "match_incoming"):
+            if via == "save":
+                I.call(save, [s, a, dict(falsy)], {})
+            else:
+                I.call(mi, [s], {"address": A, "patch": dict(falsy)})
+            dyn = a.attrs.get("__attrs", {})
+            wrong = [k for k, v in falsy.items() if not ((a.attrs.get(k, dyn.get(k, "<absent>")) == v) and type(a.attrs.get(k, dyn.get(k))) is type(v))]
+            if wrong:
+                return False, f"patch through {via} naming falsy values: not set: {wrong}", s
+            I.call(save, [s, a, {"snmp_enabled": True, "nat_enabled": True, "dmr_id": 2305, "callsign": "OK1XXX", "custom_flag": True, "custom_count": 5, "custom_text": "x"}], {})
+        return True, f"{len(falsy)} falsy values (False, 0, '') set through save and through match_incoming", s
+    scenario("patch-falsy-values", s_patch_falsy, "patch/exact")
 
     def s_readdress(I):
         s = fresh(I)
